@@ -135,6 +135,26 @@ Theorem C09_mutation_frame : forall t n f,
 Proof. exact mutation_frame. Qed.
 Print Assumptions C09_mutation_frame.
 
+(* ---- trees with a history ---- *)
+(* every public mutator keeps a tree well formed, so all of the above holds for every tree a
+   client can reach by any sequence of setters / adds / deletes (ill-fitting ones are refused
+   and change nothing); in particular equality after two histories depends only on the values
+   reached, and a deep copy of a tree with a history is that tree *)
+Theorem C09_history_wf : forall h, Forall (fun pm => mutop_wf (snd pm)) h ->
+  forall v, jv_wf v -> jv_wf (fst (run_history h v)).
+Proof. exact run_history_wf. Qed.
+Print Assumptions C09_history_wf.
+
+Theorem C09_history_equal_iff_denote : forall ha hb a b,
+  Forall (fun pm => mutop_wf (snd pm)) ha -> Forall (fun pm => mutop_wf (snd pm)) hb -> jv_wf a -> jv_wf b ->
+  let a' := fst (run_history ha a) in
+  let b' := fst (run_history hb b) in
+  (jv_equal a' b' = true <-> nan_free a' = true /\ nan_free b' = true /\ denote a' = denote b') /\
+  jv_equal a' b' = jv_equal b' a' /\
+  deep_copy a' = a' /\ jv_equal a' (deep_copy a') = nan_free a'.
+Proof. exact history_equal_iff_denote. Qed.
+Print Assumptions C09_history_equal_iff_denote.
+
 (* ---- non-vacuity ---- *)
 Theorem C09_nonvacuous_equal :
   ex_a <> ex_b /\ jv_equal ex_a ex_b = true /\ jv_equal ex_b ex_c = true /\ jv_equal ex_a ex_c = true /\
@@ -167,3 +187,15 @@ Theorem C09_nonvacuous_shared_nan :
   nt_equal (NArr 1 [x]) (NArr 2 [NLeaf 8 (LDouble ex_nan None)]) = false /\
   consistent (NArr 1 [x]) (NArr 2 [x]).
 Proof. exact ex_shared_nan. Qed.
+
+Theorem C09_nonvacuous_history :
+  let h := [([SKey [98]; SIdx 2], MSetStr [1;2;3;4;5;6;7;8;9;10;11;12;13;14;15;16;17;18;19;20;21;22;23;24;25;26;27;28;29;30;31;32;33]);
+            ([SKey [98]; SIdx 2], MSetStr [0;1]);
+            ([SKey [97]], MSetUint 9223372036854775807);
+            ([], MPut [122] JNull); ([], MDel [122]);
+            ([SKey [98]], MArrPut 5 (JInt 1)); ([SKey [98]], MArrDel 3 3); ([SKey [98]], MArrDel 7 1)] in
+  run_history h ex_a
+  = (JObj [([97], JUint 9223372036854775807); ([98], JArr [JNull; JDouble 0 (Some [48;46;48]); JStr [0;1]]); ([], JObj [])],
+     [true; true; true; true; true; true; true; false]) /\
+  jv_equal (fst (run_history h ex_a)) ex_b = true.
+Proof. exact ex_history. Qed.
